@@ -35,7 +35,8 @@ Huge == MaxAlloc + 1
 
 R0 == [code |-> 200, loc |-> "none", rf |-> "none", ra |-> 0, rb |-> 0, cl |-> 0, dig |-> "none", halg |-> "", hcont |-> "",
        link |-> "none", ctype |-> "none", mf |-> "none", mv |-> 0, crf |-> "none", crtot |-> 0,
-       body |-> "empty", blen |-> 0, bcont |-> "e", bend |-> "eof", items |-> 0]
+       body |-> "empty", blen |-> 0, bcont |-> "e", bend |-> "eof", items |-> 0,
+       ecode |-> ""]     \* the OCI error code an "errjson" body carries (does not move the machine)
 Net == [R0 EXCEPT !.code = NetErr]
 
 \* error responses: status x (content type, body class); none of it moves the machine
@@ -144,8 +145,23 @@ OkAlpha(step, first) ==
          \cup {[R0 EXCEPT !.body = "list", !.items = N, !.link = "none", !.bend = "cut", !.ctype = "json"]}
     [] OTHER -> {}
 
+(* Family "uperr": the upload operations (POST, PATCH, PUT, status GET, mount) against well-formed OCI error
+   responses of EVERY standard error code, under the status that belongs to the code and under one that does
+   not; otherwise the server is well behaved, so that every request of an upload is reached. *)
+UpErr == "uperr" \in Families
+ErrTable == {<<"BLOB_UNKNOWN", 404>>, <<"BLOB_UPLOAD_INVALID", 416>>, <<"BLOB_UPLOAD_UNKNOWN", 404>>, <<"DIGEST_INVALID", 400>>,
+             <<"MANIFEST_BLOB_UNKNOWN", 404>>, <<"MANIFEST_INVALID", 400>>, <<"MANIFEST_UNKNOWN", 404>>, <<"NAME_INVALID", 400>>,
+             <<"NAME_UNKNOWN", 404>>, <<"SIZE_INVALID", 400>>, <<"UNAUTHORIZED", 401>>, <<"DENIED", 403>>, <<"UNSUPPORTED", 400>>,
+             <<"TOOMANYREQUESTS", 429>>, <<"RANGE_INVALID", 416>>}
+CodeErrs == UNION {{[R0 EXCEPT !.code = st, !.ctype = "json", !.body = "errjson", !.ecode = x[1]] : st \in {x[2], 500}} : x \in ErrTable}
+Fine(step) ==
+  CASE step = "status" -> {[R0 EXCEPT !.code = 204, !.loc = "path", !.rf = "num", !.ra = 0, !.rb = 0]}
+    [] step = "mount" -> {[R0 EXCEPT !.code = 201, !.loc = "path"]}
+    [] OTHER -> {[R0 EXCEPT !.code = c, !.loc = "path"] : c \in OkCodes(step)}
+
 Alpha(step) ==
-  IF Lite /\ ncalls > 2 THEN OkAlpha(step, FALSE) \cup {[R0 EXCEPT !.code = 404, !.ctype = "json", !.body = "errjson"]}
+  IF UpErr THEN Fine(step) \cup CodeErrs
+  ELSE IF Lite /\ ncalls > 2 THEN OkAlpha(step, FALSE) \cup {[R0 EXCEPT !.code = 404, !.ctype = "json", !.body = "errjson"]}
   ELSE IF fl.on \/ cq > 0 \/ (~Full /\ ncalls > 1) THEN OkAlpha(step, FALSE) \cup {[R0 EXCEPT !.code = 404, !.ctype = "json", !.body = "errjson"], Net}
   ELSE OkAlpha(step, TRUE) \cup Errs(step) \cup Redirs \cup {Net}
 
@@ -177,6 +193,9 @@ TopCallsOf(Family) ==
          \cup {[Cl("Resume") EXCEPT !.off = x[1], !.idform = x[2], !.hint = 2] :
                   x \in (IF Lite THEN {<<-2, "path">>, <<0, "path">>, <<3, "url">>, <<0, "rel">>, <<0, "bad">>, <<0, "empty">>}
                          ELSE {-2, 0, 3} \X {"path", "url", "rel", "bad", "empty"})}
+    [] Family = "uperr" ->
+         {[Cl("PushBlobChunked") EXCEPT !.hint = 1], [Cl("Resume") EXCEPT !.off = MinusOne, !.idform = "path", !.hint = 1],
+          [Cl("PushBlob") EXCEPT !.csize = 2], Cl("MountBlob")}
     [] OTHER -> {}
 
 \* (the page size reaches the requests of the listing operations only: the exports enumerate the other families
@@ -188,7 +207,14 @@ WriterCalls == {[Cl("Write") EXCEPT !.wlen = k] : k \in (IF Lite /\ ncalls > 1 T
                \cup {[Cl("Commit") EXCEPT !.dg = "want"]} \cup (IF Lite /\ ncalls > 1 THEN {} ELSE {Cl("Close")})
                \cup (IF Lite /\ ncalls > 1 THEN {} ELSE {Cl("Size"), [Cl("Commit") EXCEPT !.dg = "empty"]})
 Menu ==
-  IF ncalls = 0 THEN TopCalls
+  IF UpErr /\ ncalls > 0
+  THEN \* after a failed call one more call on the writer (does it still answer?), then the end
+       IF ~w.open \/ call.name = "Size" \/ (call.name = "Commit" /\ out.ok) THEN {}
+       ELSE IF ~out.ok THEN {Cl("Size")}
+       ELSE IF ncalls >= MaxCalls THEN {}
+       ELSE {[Cl("Write") EXCEPT !.wlen = 1], [Cl("Write") EXCEPT !.wlen = 2], [Cl("Commit") EXCEPT !.dg = "want"]}
+            \cup (IF w.chunk > 0 THEN {Cl("Close")} ELSE {})
+  ELSE IF ncalls = 0 THEN TopCalls
   ELSE IF ncalls >= MaxCalls THEN {}
   ELSE IF rd.open THEN {Cl("ReadAll")}
   ELSE IF w.open /\ ~(call.name = "Commit" /\ out.ok) /\ call.name # "Size" THEN WriterCalls
@@ -202,7 +228,7 @@ Sd(v) == IF v >= DefaultN - 1 THEN [t |-> (v + 1) \div DefaultN, k |-> v - ((v +
 Sh(v) == IF v >= Huge THEN [t |-> 1, k |-> v - Huge] ELSE [t |-> 0, k |-> v]
 Xr(r) == [code |-> r.code, loc |-> r.loc, rf |-> r.rf, ra |-> r.ra, rb |-> r.rb, cl |-> Sc(r.cl), dig |-> r.dig, halg |-> r.halg,
           hcont |-> r.hcont, link |-> r.link, ctype |-> r.ctype, mf |-> r.mf, mv |-> Sh(r.mv), crf |-> r.crf, crtot |-> r.crtot,
-          body |-> r.body, bcont |-> r.bcont, bend |-> r.bend, items |-> Sd(r.items)]
+          body |-> r.body, bcont |-> r.bcont, bend |-> r.bend, items |-> Sd(r.items), ecode |-> r.ecode]
 
 MCInit == /\ \E p \in PageSizes : Init0(p)
           /\ budget = MaxResp /\ ncalls = 0 /\ h = <<>>
